@@ -23,6 +23,7 @@
    repair_tc + self-loop test on touched nodes, as coded) refines the spec layer; and the SCC-based
    compute_tc, which the model represents by its contract (recompute). *)
 From Cedar Require Import TC TCProofs TCIncProofs.
+From Cedar Require Import TCLatest.
 Open Scope N_scope.
 
 Theorem c04_closure_correct : forall g u c, closure g u = Some c -> forall a, In a c <-> reach g u a.
@@ -258,3 +259,11 @@ Example ex_inc_upsert :
   agree_b (i_upsert true s [(1, [5])]) (s_compute s (OUpsert true [(1, [5])])) [0; 1; 2; 3; 4; 5] = true
   /\ i_upsert true s [(3, [0])] = TErr ECycle.
 Proof. split; vm_compute; reflexivity. Qed.
+
+(* upsert_entities applies only the latest version of each uid of its batch (afe0e04; TC.latest_versions, used by both
+   layers): uid by uid this yields the same entity records — hence the same direct-parent links — as applying every
+   version in turn; the de-duplication only avoids stripping against intermediate, not yet closed versions. *)
+Theorem c04_upsert_latest : forall (es : list ent) (s : store) (u : uid),
+  find u (fold_left upd_over (latest_versions es) s) = find u (fold_left upd_over es s).
+Proof. exact upsert_latest_same_records. Qed.
+Print Assumptions c04_upsert_latest.
